@@ -406,4 +406,471 @@ theorem classify_error_column (line : String) (pe : ParseErr)
   have := classifyL_error_column parseExpr_goodErrors line.toList pe h
   simpa only [String.length_toList] using this
 
+@[simp] theorem setCur_defs (s : PState) (ss : List Stmt) : (s.setCur ss).defs = s.defs := by
+  unfold PState.setCur; split <;> rfl
+@[simp] theorem setCur_cur (s : PState) (ss : List Stmt) : (s.setCur ss).cur = ss := by
+  obtain ⟨a, f, c, d, e⟩ := s
+  cases f <;> rfl
+@[simp] theorem setCur_func_isSome (s : PState) (ss : List Stmt) : (s.setCur ss).func.isSome = s.func.isSome := by
+  unfold PState.setCur; split <;> simp_all
+theorem setCur_stmts {s : PState} (h : s.func.isSome = true) (ss : List Stmt) : (s.setCur ss).stmts = s.stmts := by
+  obtain ⟨a, f, c, d, e⟩ := s
+  cases f with
+  | none => cases h
+  | some f => rfl
+theorem emit_stmts {s : PState} (h : s.func.isSome = true) (ss : List Stmt) : (s.emit ss).stmts = s.stmts :=
+  setCur_stmts h _
+@[simp] theorem emit_defs (s : PState) (ss : List Stmt) : (s.emit ss).defs = s.defs := by simp [PState.emit]
+@[simp] theorem emit_cur (s : PState) (ss : List Stmt) : (s.emit ss).cur = s.cur ++ ss := by simp [PState.emit]
+@[simp] theorem emit_func_isSome (s : PState) (ss : List Stmt) : (s.emit ss).func.isSome = s.func.isSome := by
+  simp [PState.emit]
+
+@[simp] theorem mk_cur (s1 : PState) (d : List LabelDef) (i n : Nat) :
+    (PState.mk s1.stmts s1.func d i n).cur = s1.cur := rfl
+
+theorem eq_dropLast_append {α} (l : List α) (a : α) (h : l.getLast? = some a) : l = l.dropLast ++ [a] := by
+  rcases List.eq_nil_or_concat l with rfl | ⟨l', b, rfl⟩
+  · simp at h
+  · simp at h ⊢; exact h
+
+theorem retarget_length (ss : List Stmt) (a : Nat) (l : Name) : (retarget ss a l).length = ss.length := by
+  unfold retarget; split <;> simp
+
+theorem findLoop_split : ∀ (ds : List LabelDef) {pre l post}, findLoop ds = some (pre, l, post) → ds = pre ++ l :: post
+  | [], _, _, _, h => by simp [findLoop] at h
+  | .whileD .. :: rest, _, _, _, h => by simp [findLoop] at h; obtain ⟨rfl, rfl, rfl⟩ := h; simp
+  | .forD .. :: rest, _, _, _, h => by simp [findLoop] at h; obtain ⟨rfl, rfl, rfl⟩ := h; simp
+  | .ifD a b c d :: rest, pre, l, post, h => by
+      simp only [findLoop, Option.map_eq_some_iff] at h
+      obtain ⟨⟨pre', l', post'⟩, h1, h2⟩ := h
+      simp only [Prod.mk.injEq] at h2
+      obtain ⟨rfl, rfl, rfl⟩ := h2
+      have := findLoop_split rest h1
+      simp [this]
+
+theorem scopeDefs_prefix (s : PState) : ∃ t, s.defs = s.scopeDefs ++ t :=
+  ⟨s.defs.drop (s.defs.length - s.floor), by simp [PState.scopeDefs]⟩
+
+/-- how one line changes the block stack `label_defs` -/
+def BlockChange (ps ps' : PState) : Line → Prop
+  | .ifBegin _ | .whileBegin _ | .forBegin .. => ∃ d, ps'.defs = d :: ps.defs
+  | .endif | .endwhile | .endfor => ∃ d, ps.defs = d :: ps'.defs
+  | .elif _ | .else_ => ∃ d d' t, ps.defs = d :: t ∧ ps'.defs = d' :: t
+  | .continue_ => ps'.defs.length = ps.defs.length
+  | _ => ps'.defs = ps.defs
+
+theorem stepLine_block {ps ps' : PState} {l : Line} (h : stepLine ps l = .ok ps') : BlockChange ps ps' l := by
+  obtain ⟨t, ht⟩ := scopeDefs_prefix ps
+  cases l <;> simp only [stepLine] at h
+  all_goals repeat' split at h
+  all_goals first | (cases h; done) | skip
+  all_goals (simp only [Except.ok.injEq] at h; subst h)
+  all_goals first | (simp [BlockChange]; done) | skip
+  all_goals first
+    | (rename_i heq _; rw [heq] at ht; simp [BlockChange, ht]; done)
+    | (rename_i heq; rw [heq] at ht; simp [BlockChange, ht]; done)
+    | skip
+  -- `continue` inside a `for`: the entry is replaced in place
+  rename_i heq
+  have := findLoop_split _ heq
+  rw [this] at ht
+  simp [BlockChange, ht]
+
+theorem stepLine_defs_length {ps ps' : PState} {l : Line} (h : stepLine ps l = .ok ps') :
+    ps'.defs.length = ps.defs.length + 1 ∨ ps'.defs.length + 1 = ps.defs.length ∨ ps'.defs.length = ps.defs.length := by
+  have := stepLine_block h
+  cases l <;> simp only [BlockChange] at this
+  all_goals first
+    | (obtain ⟨d, hd⟩ := this; rw [hd]; simp; done)
+    | (obtain ⟨d, d', t, h1, h2⟩ := this; rw [h1, h2]; simp; done)
+    | (rw [this]; simp; done)
+    | (simp [this]; done)
+
+/-- the documented effects of one source line on the parser state -/
+inductive LineEffect (ps ps' : PState) : Prop
+  /-- at least one statement was appended to the current statement list (all block lines are of this kind) -/
+  | grew (hf : ps'.func.isSome = ps.func.isSome) (hs : ps.func.isSome = true → ps'.stmts = ps.stmts)
+      (h : ps.cur.length < ps'.cur.length)
+  | funcOpened (h : ps.func = none) (h' : ps'.func.isSome = true) (hs : ps'.stmts = ps.stmts)
+  | funcClosed (f : OpenFunc) (h : ps.func = some f) (h' : ps'.func = none)
+      (hs : ps'.stmts = ps.stmts ++ [.function f.fid f.name f.args f.lastArgArray f.isAsync f.body])
+  | includeMerged (pre : List Stmt) (incs : List IncludeScript) (inc : IncludeScript)
+      (hf : ps'.func.isSome = ps.func.isSome) (hs : ps.func.isSome = true → ps'.stmts = ps.stmts)
+      (h : ps.cur = pre ++ [.include incs]) (h' : ps'.cur = pre ++ [.include (incs ++ [inc])])
+
+theorem stepLine_effect {ps ps' : PState} {l : Line} (h : stepLine ps l = .ok ps') : LineEffect ps ps' := by
+  cases l <;> simp only [stepLine] at h
+  all_goals repeat' split at h
+  all_goals first | (cases h; done) | skip
+  all_goals (simp only [Except.ok.injEq] at h; subst h)
+  all_goals first
+    | (apply LineEffect.grew
+       · simp
+       · intro hsome; simp [emit_stmts hsome, setCur_stmts hsome]
+       · simp [retarget_length, forHeader, forFooter]
+       done)
+    | skip
+  · rename_i heq; exact .funcOpened heq rfl rfl
+  · rename_i f heq _; exact .funcClosed f heq rfl rfl
+  · rename_i incs heq
+    rename_i url sys _
+    refine .includeMerged ps.cur.dropLast incs { url := url, system := sys } (by simp)
+      (fun hsome => by simp [setCur_stmts hsome]) ?_ (by simp)
+    exact eq_dropLast_append _ _ heq
+
+
+/-! ## `stepLogical` restated with named pieces -/
+
+/-- the `BareScriptParserError` of a block-structure error: `Missing end…` raised by `endfunction` reports the line
+that opened the innermost open block, everything else the current line; always column 1 -/
+def structural (wh : Where) (line : String) (ln : Nat) (e : LowerErr) : ParserError :=
+  match e with
+  | .missingEnd _ =>
+      match wh.defs with
+      | (dl, dn) :: _ => ⟨e.text, dl, 1, dn⟩
+      | [] => ⟨e.text, line, 1, ln⟩
+  | _ => ⟨e.text, line, 1, ln⟩
+
+/-- the position stack after a successful lowering step `ps → ps'` of the line `(line, ln)` -/
+def whereStep (ps ps' : PState) (wh : Where) (line : String) (ln : Nat) : Where :=
+  { defs :=
+      if ps'.defs.length = ps.defs.length + 1 then (line, ln) :: wh.defs
+      else if ps'.defs.length + 1 = ps.defs.length then wh.defs.tail
+      else wh.defs,
+    func :=
+      match ps.func, ps'.func with
+      | none, some _ => some (line, ln)
+      | _, none => none
+      | some _, some _ => wh.func }
+
+/-- the block-structure test an `elif` line undergoes before its expression is parsed -/
+def preCheck (s : St) (line : String) (ln : Nat) : Except ParserError Unit :=
+  match Scan.shape line.toList with
+  | .elif _ _ =>
+      match stepLine s.1 (.elif dummyExpr) with
+      | .error e => .error (structural s.2 line ln e)
+      | .ok _ => .ok ()
+  | _ => .ok ()
+
+theorem stepLogical_eq (start : Nat) (s : St) (ix : Nat) (line : String) :
+    stepLogical start s ix line =
+      match preCheck s line (start + ix) with
+      | .error e => .error e
+      | .ok () =>
+        match Scan.classify ExprParse.parseExpr line with
+        | .error pe => .error ⟨pe.error, line, pe.column, start + ix⟩
+        | .ok cl =>
+          match stepLine s.1 cl with
+          | .error e => .error (structural s.2 line (start + ix) e)
+          | .ok ps' => .ok (ps', whereStep s.1 ps' s.2 line (start + ix)) := rfl
+
+/-- a successful step: the line was classified and lowered -/
+theorem stepLogical_ok {start : Nat} {s s' : St} {ix : Nat} {line : String} (h : stepLogical start s ix line = .ok s') :
+    ∃ cl, Scan.classify ExprParse.parseExpr line = .ok cl ∧ stepLine s.1 cl = .ok s'.1 ∧
+      s'.2 = whereStep s.1 s'.1 s.2 line (start + ix) := by
+  rw [stepLogical_eq] at h
+  split at h
+  · cases h
+  · split at h
+    · cases h
+    · rename_i cl hcl
+      split at h
+      · cases h
+      · rename_i ps' hps
+        simp only [Except.ok.injEq] at h
+        subst h
+        exact ⟨cl, hcl, hps, rfl⟩
+
+/-! ## the position stack moves together with the block stack -/
+
+/-- a recorded position is that of a logical line of `ll` -/
+def IsPos (start : Nat) (ll : List (Nat × String)) (x : String × Nat) : Prop :=
+  ∃ ix line, (ix, line) ∈ ll ∧ x = (line, start + ix)
+
+/-- the two stacks have the same height, a function position is recorded exactly when a function is open -/
+structure Sync (s : St) : Prop where
+  len : s.2.defs.length = s.1.defs.length
+  fsome : s.2.func.isSome = s.1.func.isSome
+
+/-- every recorded position is that of a logical line of `ll` -/
+structure Pos (start : Nat) (ll : List (Nat × String)) (s : St) : Prop where
+  defs : ∀ x ∈ s.2.defs, IsPos start ll x
+  func : ∀ x, s.2.func = some x → IsPos start ll x
+
+theorem sync_init : Sync (PState.init, {}) := ⟨rfl, rfl⟩
+theorem pos_init (start : Nat) (ll : List (Nat × String)) : Pos start ll (PState.init, {}) :=
+  ⟨fun x hx => (by cases hx), fun x hx => (by cases hx)⟩
+
+theorem whereStep_sync {ps ps' : PState} {wh : Where} {cl : Line} (line : String) (ln : Nat)
+    (hs : Sync (ps, wh)) (h : stepLine ps cl = .ok ps') : Sync (ps', whereStep ps ps' wh line ln) := by
+  have hl := stepLine_defs_length h
+  have h1 := hs.len
+  have h2 := hs.fsome
+  simp only at h1 h2
+  constructor
+  · simp only [whereStep]
+    split
+    · simp only [List.length_cons]; omega
+    · split
+      · simp only [List.length_tail]; omega
+      · omega
+  · simp only [whereStep]
+    split <;> simp_all
+
+theorem whereStep_pos {start : Nat} {ll : List (Nat × String)} {ps ps' : PState} {wh : Where} {ix : Nat} {line : String}
+    (hmem : (ix, line) ∈ ll) (hp : Pos start ll (ps, wh)) : Pos start ll (ps', whereStep ps ps' wh line (start + ix)) := by
+  have hcur : IsPos start ll (line, start + ix) := ⟨ix, line, hmem, rfl⟩
+  constructor
+  · intro x hx
+    simp only [whereStep] at hx
+    split at hx
+    · rcases List.mem_cons.mp hx with rfl | hx
+      · exact hcur
+      · exact hp.defs x hx
+    · split at hx
+      · exact hp.defs x (List.mem_of_mem_tail hx)
+      · exact hp.defs x hx
+  · intro x hx
+    simp only [whereStep] at hx
+    split at hx
+    · cases hx; exact hcur
+    · cases hx
+    · exact hp.func x hx
+
+theorem stepLogical_sync {start : Nat} {s s' : St} {ix : Nat} {line : String} (hs : Sync s)
+    (h : stepLogical start s ix line = .ok s') : Sync s' := by
+  obtain ⟨cl, _, h2, h3⟩ := stepLogical_ok h
+  obtain ⟨ps', wh'⟩ := s'
+  simp only at h2 h3
+  subst h3
+  exact whereStep_sync line _ hs h2
+
+theorem stepLogical_pos {start : Nat} {ll : List (Nat × String)} {s s' : St} {ix : Nat} {line : String}
+    (hmem : (ix, line) ∈ ll) (hp : Pos start ll s) (h : stepLogical start s ix line = .ok s') : Pos start ll s' := by
+  obtain ⟨cl, _, h2, h3⟩ := stepLogical_ok h
+  obtain ⟨ps', wh'⟩ := s'
+  simp only at h2 h3
+  subst h3
+  exact whereStep_pos hmem hp
+
+/-! ## errors point into the source -/
+
+/-- the error carries the number and text of a logical line of `ll` and a column inside it -/
+def GoodPos (start : Nat) (ll : List (Nat × String)) (e : ParserError) : Prop :=
+  ∃ ix line, (ix, line) ∈ ll ∧ e.lineNumber = start + ix ∧ e.line = line ∧ 1 ≤ e.column ∧ e.column ≤ line.length + 1
+
+theorem structural_good {start : Nat} {ll : List (Nat × String)} {s : St} {ix : Nat} {line : String}
+    (hmem : (ix, line) ∈ ll) (hp : Pos start ll s) (e : LowerErr) :
+    GoodPos start ll (structural s.2 line (start + ix) e) ∧ (structural s.2 line (start + ix) e).column = 1 := by
+  have hcur : ∀ t, GoodPos start ll ⟨t, line, 1, start + ix⟩ :=
+    fun t => ⟨ix, line, hmem, rfl, rfl, Nat.le_refl 1, by simp⟩
+  unfold structural
+  split
+  · split
+    · rename_i dl dn rest hd
+      obtain ⟨ix', line', hm', he⟩ := hp.defs (dl, dn) (by rw [hd]; simp)
+      simp only [Prod.mk.injEq] at he
+      obtain ⟨rfl, rfl⟩ := he
+      exact ⟨⟨ix', dl, hm', rfl, rfl, Nat.le_refl 1, by simp⟩, rfl⟩
+    · exact ⟨hcur _, rfl⟩
+  · exact ⟨hcur _, rfl⟩
+
+/-- **errors of one line**: the reported position is the current line or the recorded opening line of a block, the
+column is inside that line -/
+theorem stepLogical_error {start : Nat} {ll : List (Nat × String)} {s : St} {ix : Nat} {line : String} {e : ParserError}
+    (hmem : (ix, line) ∈ ll) (hp : Pos start ll s) (h : stepLogical start s ix line = .error e) : GoodPos start ll e := by
+  rw [stepLogical_eq] at h
+  split at h
+  · rename_i e' hpre
+    cases h
+    unfold preCheck at hpre
+    split at hpre
+    · split at hpre
+      · cases hpre; exact (structural_good hmem hp _).1
+      · cases hpre
+    · cases hpre
+  · split at h
+    · rename_i pe hpe
+      cases h
+      have := classify_error_column line pe hpe
+      exact ⟨ix, line, hmem, rfl, rfl, this.2.1, this.2.2⟩
+    · split at h
+      · cases h; exact (structural_good hmem hp _).1
+      · cases h
+
+/-! ## shifting the start line number -/
+
+def shiftE (d : Nat) (e : ParserError) : ParserError := { e with lineNumber := e.lineNumber + d }
+
+def shiftW (d : Nat) (wh : Where) : Where :=
+  { defs := wh.defs.map (fun x => (x.1, x.2 + d)), func := wh.func.map (fun x => (x.1, x.2 + d)) }
+
+/-- add `d` to the line number of an error result; a success is unchanged -/
+def shiftR {α : Type} (d : Nat) : Except ParserError α → Except ParserError α
+  | .ok a => .ok a
+  | .error e => .error (shiftE d e)
+
+def shiftS (d : Nat) : Except ParserError St → Except ParserError St
+  | .ok s => .ok (s.1, shiftW d s.2)
+  | .error e => .error (shiftE d e)
+
+theorem structural_shift (d : Nat) (wh : Where) (line : String) (ln : Nat) (e : LowerErr) :
+    structural (shiftW d wh) line (ln + d) e = shiftE d (structural wh line ln e) := by
+  obtain ⟨defs, func⟩ := wh
+  cases e <;> first | rfl | (cases defs <;> rfl)
+
+theorem whereStep_shift (d : Nat) (ps ps' : PState) (wh : Where) (line : String) (ln : Nat) :
+    whereStep ps ps' (shiftW d wh) line (ln + d) = shiftW d (whereStep ps ps' wh line ln) := by
+  obtain ⟨defs, func⟩ := wh
+  simp only [whereStep, shiftW]
+  congr 1
+  · split
+    · simp
+    · split
+      · simp
+      · rfl
+  · split <;> simp
+
+theorem preCheck_shift (d : Nat) (ps : PState) (wh : Where) (line : String) (ln : Nat) :
+    preCheck (ps, shiftW d wh) line (ln + d) = shiftR d (preCheck (ps, wh) line ln) := by
+  unfold preCheck
+  split
+  · simp only
+    split
+    · simp only [structural_shift, shiftR]
+    · rfl
+  · rfl
+
+theorem stepLogical_shift (start d : Nat) (ps : PState) (wh : Where) (ix : Nat) (line : String) :
+    stepLogical (start + d) (ps, shiftW d wh) ix line = shiftS d (stepLogical start (ps, wh) ix line) := by
+  rw [stepLogical_eq, stepLogical_eq, Nat.add_right_comm start d ix, preCheck_shift]
+  cases preCheck (ps, wh) line (start + ix) with
+  | error e => rfl
+  | ok u =>
+    simp only [shiftR]
+    cases Scan.classify ExprParse.parseExpr line with
+    | error pe => rfl
+    | ok cl =>
+      simp only
+      cases stepLine ps cl with
+      | error e => simp only [structural_shift, shiftS]
+      | ok ps' => simp only [whereStep_shift, shiftS]
+
+theorem stepAll_shift (start d : Nat) : ∀ (ll : List (Nat × String)) (ps : PState) (wh : Where),
+    stepAll (start + d) (ps, shiftW d wh) ll = shiftS d (stepAll start (ps, wh) ll)
+  | [], _, _ => rfl
+  | (ix, line) :: rest, ps, wh => by
+      simp only [stepAll, stepLogical_shift]
+      cases stepLogical start (ps, wh) ix line with
+      | error e => rfl
+      | ok s' =>
+        obtain ⟨ps', wh'⟩ := s'
+        simp only [shiftS]
+        exact stepAll_shift start d rest ps' wh'
+
+theorem finishAll_shift (start d : Nat) (ps : PState) (wh : Where) (dg : Option Text.LineErr) :
+    finishAll (start + d) (ps, shiftW d wh) dg = shiftR d (finishAll start (ps, wh) dg) := by
+  obtain ⟨wdefs, wfunc⟩ := wh
+  cases dg with
+  | some x => simp only [finishAll, shiftR, shiftE, Nat.add_right_comm start d]
+  | none =>
+    simp only [finishAll, shiftW]
+    cases hd : ps.defs with
+    | cons a as => cases wdefs <;> rfl
+    | nil =>
+      simp only
+      cases hf : ps.func with
+      | none => rfl
+      | some f => cases wfunc <;> rfl
+
+/-! ## re-indexing the logical lines = moving the start line number -/
+
+def addIx (k : Nat) (e : Text.LineErr) : Text.LineErr := { e with ixLine := e.ixLine + k }
+
+theorem stepLogical_reindex (start k : Nat) (s : St) (ix : Nat) (line : String) :
+    stepLogical start s (ix + k) line = stepLogical (start + k) s ix line := by
+  rw [stepLogical_eq, stepLogical_eq]
+  have : start + (ix + k) = start + k + ix := by omega
+  rw [this]
+
+theorem stepAll_reindex (start k : Nat) : ∀ (ll : List (Nat × String)) (s : St),
+    stepAll start s (ll.map (fun x => (x.1 + k, x.2))) = stepAll (start + k) s ll
+  | [], _ => rfl
+  | (ix, line) :: rest, s => by
+      simp only [List.map_cons, stepAll, stepLogical_reindex]
+      cases stepLogical (start + k) s ix line with
+      | error e => rfl
+      | ok s' => exact stepAll_reindex start k rest s'
+
+theorem finishAll_reindex (start k : Nat) (s : St) (hs : Sync s) (dg : Option Text.LineErr) :
+    finishAll start s (dg.map (addIx k)) = finishAll (start + k) s dg := by
+  obtain ⟨ps, wdefs, wfunc⟩ := s
+  have h1 := hs.len
+  have h2 := hs.fsome
+  simp only at h1 h2
+  cases dg with
+  | some x => simp only [finishAll, Option.map_some, addIx, Nat.add_assoc, Nat.add_comm k]
+  | none =>
+    simp only [finishAll, Option.map_none]
+    cases hd : ps.defs with
+    | cons a as =>
+      cases wdefs with
+      | nil => rw [hd] at h1; simp at h1
+      | cons b bs => rfl
+    | nil =>
+      simp only
+      cases hf : ps.func with
+      | none => rfl
+      | some f =>
+        cases wfunc with
+        | none => rw [hf] at h2; simp at h2
+        | some g => rfl
+
+theorem stepAll_sync (start : Nat) : ∀ (ll : List (Nat × String)) (s s' : St), Sync s →
+    stepAll start s ll = .ok s' → Sync s'
+  | [], s, s', hs, h => by simp only [stepAll, Except.ok.injEq] at h; subst h; exact hs
+  | (ix, line) :: rest, s, s', hs, h => by
+      simp only [stepAll] at h
+      split at h
+      · rename_i s1 h1
+        exact stepAll_sync start rest s1 s' (stepLogical_sync hs h1) h
+      · cases h
+
+/-! ## comment / blank lines in front -/
+
+theorem loopL_comments : ∀ (cs : List Chars) (i ix : Nat), (∀ c ∈ cs, isCommentL c = true) → loopL i cs [] ix = ([], none)
+  | [], _, _, _ => rfl
+  | c :: rest, i, ix, h => by
+      have hc : isCommentL c = true := h c (by simp)
+      simp only [loopL, hc, if_true]
+      exact loopL_comments rest (i + 1) ix (fun c' hc' => h c' (List.mem_cons_of_mem _ hc'))
+
+/-- physical lines that are all comments or blank, put in front of a text, move every logical line index by their
+number and change nothing else -/
+theorem logicalLinesCore_prepend (P L : List String) (hP : ∀ l ∈ P, Text.isComment l = true) :
+    Text.logicalLinesCore (P ++ L) =
+      ((Text.logicalLinesCore L).1.map (fun x => (x.1 + P.length, x.2)),
+       (Text.logicalLinesCore L).2.map (addIx P.length)) := by
+  have hP' : ∀ c ∈ P.map String.toList, isCommentL c = true := by
+    intro c hc
+    obtain ⟨l, hl, rfl⟩ := List.mem_map.mp hc
+    exact hP l hl
+  have h0 : logicalLinesL (P.map String.toList) = ([], none) := loopL_comments _ 0 0 hP'
+  have hc := C10.logical_lines_compositional (P.map String.toList) (L.map String.toList) (by rw [h0])
+  unfold Text.logicalLinesCore
+  simp only [List.map_append, hc, h0, C10.reindex, List.nil_append, List.length_map, List.map_map, Option.map_map]
+  refine Prod.ext ?_ ?_
+  · simp only [Function.comp_def]
+  · simp only
+    congr 1
+
+theorem scriptLines_prepend (pre lines : List String)
+    (hpre : ∀ l ∈ pre.flatMap Text.splitLines, Text.isComment l = true) :
+    Text.scriptLines (pre ++ lines) =
+      ((Text.scriptLines lines).1.map (fun x => (x.1 + (pre.flatMap Text.splitLines).length, x.2)),
+       (Text.scriptLines lines).2.map (addIx (pre.flatMap Text.splitLines).length)) := by
+  unfold Text.scriptLines
+  rw [List.flatMap_append]
+  exact logicalLinesCore_prepend _ _ hpre
+
 end C06
